@@ -13,7 +13,6 @@ Definition worst (a b : nat) : nat :=
   else if (b =? AGREE) then a else b.
 
 Definition chk_partial (full_atoms : res (list ratom)) (p : bytes) (o : pobs) : nat :=
-  if negb (forallb in_model_char p) then INDET else
   match read_gro p, o with
   | Err EType, _ => INDET
   | Err e, PErr k => code (err_match e k)
@@ -29,10 +28,18 @@ Definition chk_partial (full_atoms : res (list ratom)) (p : bytes) (o : pobs) : 
 
 Definition atoms_of (f : bytes) : res (list ratom) := rmap r_atoms (read_gro f).
 
-(* byte prefixes f[:k] of a complete file *)
-Definition chk_cuts (f : bytes) (cuts : list (nat * pobs)) : nat :=
+(* byte prefixes f[:k] of a complete file; a segment (start, count, obs) says that the real
+   reader did obs on every k in start .. start+count-1 *)
+Fixpoint chk_seg (fa : res (list ratom)) (f : bytes) (k count : nat) (o : pobs) (acc : nat) : nat :=
+  match count with
+  | O => acc
+  | S c => chk_seg fa f (S k) c o (worst acc (chk_partial fa (firstn k f) o))
+  end.
+Definition chk_cuts (f : bytes) (cuts : list (N * N * pobs)) : nat :=
+  if negb (forallb in_model_char f) then INDET else
   let fa := atoms_of f in
-  fold_left (fun acc c => worst acc (chk_partial fa (firstn (fst c) f) (snd c))) cuts AGREE.
+  fold_left (fun acc c => let '(k, n, o) := c in chk_seg fa f (N.to_nat k) (N.to_nat n) o acc)
+            cuts AGREE.
 
 (* crash points: the file after the first j operations of the run, as bytes and as verdict *)
 Definition chk_crash (c : wconf) (recs : list grec) (snaps : list (nat * bytes * pobs)) : nat :=
@@ -45,7 +52,8 @@ Definition chk_crash (c : wconf) (recs : list grec) (snaps : list (nat * bytes *
       let '(j, fo, o) := s in
       worst acc
         match file_after c (firstn j ops) with
-        | Ok fj => if bytes_eqb fj fo then chk_partial fa fo o else DISAGREE
+        | Ok fj => if negb (forallb in_model_char fo) then INDET else
+                   if bytes_eqb fj fo then chk_partial fa fo o else DISAGREE
         | Err _ => ERRMISMATCH
         end) snaps AGREE
   end.
